@@ -74,7 +74,7 @@ def run_sweep(source, tier, seed):
         log("[G] %d cases, TLC states=%s distinct=%s in %.1fs" % (len(cases), gstats.get("states"), gstats.get("distinct"), time.time() - t0))
         trace_p = os.path.join(d, "trace.ndjson")
         t1 = time.time()
-        vlib.replay_lib(cases_p, trace_p)
+        vlib.replay_lib(cases_p, trace_p, timeout_s=sources.REPLAY_TIMEOUT.get(source, 60))
         rwall = time.time() - t1
         log("[R] replayed in %.1fs" % rwall)
         t2 = time.time()
